@@ -932,6 +932,8 @@ func ruleWanted(prop, r string) bool {
 		return r == "gate" || r == "size" || r == "eof" || r == "ext" || r == "state"
 	case "C08":
 		return r == "install" || r == "drain"
+	case "C18":
+		return r == "install" || r == "state" || r == "utf8"
 	case "C07":
 		return r == "utf8" || r == "state"
 	case "C13":
